@@ -32,6 +32,7 @@ impl Duration {
     { Duration { nanos: ms as u128 * 1_000_000 } }
     pub fn from_secs(s: u64) -> (r: Duration) ensures r.nanos == s as nat * 1_000_000_000
     { Duration { nanos: s as u128 * 1_000_000_000 } }
+    pub fn is_zero(&self) -> (r: bool) ensures r == (self.nanos == 0) { self.nanos == 0 }
     pub fn as_millis(&self) -> (r: u128) ensures r == self.nanos / 1_000_000
     { self.nanos / 1_000_000 }
     pub fn subsec_millis(&self) -> (r: u32) ensures r == (self.nanos % 1_000_000_000) / 1_000_000
